@@ -373,7 +373,12 @@ func populateConfig() error {
 
 func main() {
 	logger.Init("", false, false, os.Stdout)
-	flag.Parse()
+	// A command line the flag package rejects is tool misuse (exit 1), not a verification failure:
+	// the default flag.ExitOnError would exit with status 2 (and with 0 for -h).
+	flag.CommandLine.Init(os.Args[0], flag.ContinueOnError)
+	if err := flag.CommandLine.Parse(os.Args[1:]); err != nil {
+		os.Exit(exitTool)
+	}
 	cmdline.Parse("auto")
 	logger.SetLevel(logger.Level(*verbosity))
 
